@@ -218,6 +218,16 @@ def capture_assumptions(props_v: str, timeout: int = 600) -> dict[str, str]:
     return res
 
 
+def run_coqchk(props_v: str, timeout: int = 1800):
+    """re-check the compiled property file and everything it depends on with the independent checker;
+    -o prints the axioms the loaded libraries rely on"""
+    mod = "TL." + props_v.replace("theories/", "")[:-2].replace("/", ".")
+    p = subprocess.run(["timeout", str(timeout), "coqchk", "-silent", "-o", "-Q", "theories", "TL", mod],
+                       cwd=COQ, capture_output=True, text=True)
+    out = (p.stdout + p.stderr).strip()
+    return p.returncode == 0, out
+
+
 # ------------------------------------------------------------------ evaluation of cases
 def coq_string(s: str) -> str:
     b = s.encode("utf-8")
